@@ -470,6 +470,21 @@ def arbitrate(case, f):
         (ok_ref, ok_obs)]
 
 
+def _count_restricted(case, rep):
+    """Count the requests whose cumulative inputs avoid every input of an overwriting discipline (it is then pruned by
+    the graph traversal while an earlier producer of the same name is not)."""
+    events = G.overwrite_events(case["spec"])
+    eff = set()
+    for k, r in enumerate(case["requests"]):
+        if r["all"]:
+            continue
+        eff |= set(r["ins"])
+        if eff and any(not (eff & ev["after"]) and (eff & ev["before"]) for ev in events):
+            rep.count("requests_pruning_the_last_producer_of_an_overwritten_variable")
+            if k:
+                rep.count("later_requests_pruning_the_last_producer_of_an_overwritten_variable")
+
+
 # --------------------------------------------------------------------------- one case
 def run_case(case, rep):
     cnt = {}
@@ -480,6 +495,18 @@ def run_case(case, rep):
     rep.case((G.shape_signature(case["spec"]), case.get("pattern"), len(case["requests"]),
               len(case["points"])), info["nontrivial"] or bool(findings))
     rep.count("cases_" + feats["root"])
+    pat = str(case.get("pattern", ""))
+    if case.get("stratum") == "overwrite":
+        rep.count("cases_overwrite_stratum")
+    if pat.startswith("overwrite-exclude"):
+        rep.count("cases_requesting_only_inputs_the_overwriting_discipline_ignores")
+        if pat.endswith("sharp"):
+            # ... and the replaced value depends on a requested input, the producer does not read the name, and a
+            # later discipline of the chain reads the new value
+            rep.count("cases_pruned_overwriter_with_live_earlier_producer_and_later_reader")
+        _count_restricted(case, rep)
+    elif pat.startswith("overwrite-only"):
+        rep.count("cases_requesting_only_inputs_of_the_overwriting_discipline")
     for flag in ("overwritten", "self_update", "in_out", "par_dup", "partial_sum"):
         if feats[flag]:
             rep.count("cases_with_" + flag)
@@ -731,14 +758,41 @@ def directed_cases():
     rng = np.random.default_rng(15)
     add({"t": "chain", "children": [_leaf("first", ["x", "w"], ["v"], s, rng, "tanh"),
                                     _leaf("second", ["x"], ["v"], s, rng, "sq")]}, s, [_req(["w"], ["v"])])
+    # 11. a variable overwritten by a discipline that ignores the requested input and read afterwards
+    #     (D0: v=f(x); D1: v=g(z); D2: o=h(v)): requesting only x prunes D1, do/dx must still be an exact zero block;
+    #     as single request, as first of several, after compute_all_jacobians, and the symmetric request {z}
+    s = {"x": 2, "z": 3, "v": 2, "o": 3}
+    for fmt in ("dense", "csr", "op"):
+        rng = np.random.default_rng(16)
+        kids = [_leaf("D0", ["x"], ["v"], s, rng, "tanh", fmt), _leaf("D1", ["z"], ["v"], s, rng, "sq", fmt),
+                _leaf("D2", ["v"], ["o"], s, rng, "tanh", fmt)]
+        for reqs, pat in (([_req(["x"], ["o"])], "overwrite-exclude-first"),
+                          ([_req(["x"], ["o"]), _req(["z"], ["v"])], "overwrite-exclude-first"),
+                          ([_req(all_=True), _req(["x"], ["o", "v"])], "overwrite-exclude-after-all"),
+                          ([_req(["z"], ["o"])], "overwrite-only-first")):
+            add({"t": "chain", "children": copy.deepcopy(kids)}, s, reqs, pattern=pat)
     return cases
 
 
 # --------------------------------------------------------------------------- generated cases
+OVERWRITE_STRATUM = {"p_overwrite": 0.45, "p_self_update": 0.0, "p_overwrite_from_elsewhere": 0.6, "p_read_overwritten": 0.85}
+"""Sub-population (15 % of the generated cases) rich in variables overwritten by disciplines that read other process
+inputs than the replaced value, followed by a reader; no in-place update (its known finding would stop the case)."""
+
+
 def gen_case(rng, opts=None):
+    stratum = ""
+    p_targeted = 0.6
+    if opts is None and rng.random() < 0.15:
+        stratum = "overwrite"
+        p_targeted = 0.9
+        opts = dict(OVERWRITE_STRATUM, n_leaves=int(rng.integers(3, 7)))
+        if rng.random() < 0.6:
+            opts["root_kind"] = "chain"
     spec = G.random_composition(rng, **(opts or {}))
-    hist = G.random_requests(rng, spec)
-    return {"spec": spec, "points": hist["points"], "requests": hist["requests"], "pattern": hist["pattern"]}
+    hist = G.random_requests(rng, spec, p_targeted=p_targeted)
+    return {"spec": spec, "points": hist["points"], "requests": hist["requests"], "pattern": hist["pattern"],
+            "stratum": stratum}
 
 
 def run_shard(spec, rep):
